@@ -89,7 +89,7 @@ PROPS.update({
         "contracts": ["Pyro5.svr_threads.ClientConnectionJob.__call__", "Pyro5.svr_threads.ClientConnectionJob.handleConnection",
                       "Pyro5.svr_threads.ClientConnectionJob.denyConnection", "Pyro5.svr_multiplex.SocketServer_Multiplex.handleRequest",
                       "Pyro5.svr_multiplex.SocketServer_Multiplex._handleConnection", "Pyro5.server.Daemon._handshake", "Pyro5.protocol.recv_stub",
-                      "Pyro5.server.Daemon._sendExceptionResponse#body"],
+                      "Pyro5.server.Daemon._sendExceptionResponse#body", _HR],
         "groups": [{"modules": ["specs.socket_model", "specs.pystruct", "specs.seqdict", "contracts.socketutil", "contracts.protocol"],
                     "contracts": ["Pyro5.protocol.ReceivingMessage.__init__", "Pyro5.protocol.ReceivingMessage.validate", "Pyro5.protocol.ReceivingMessage.add_payload"]},
                    {"modules": ["specs.socket_model", "specs.pystruct", "specs.seqdict", "specs.opaque", "specs.daemon_model", "contracts.server_loops"],
@@ -98,7 +98,8 @@ PROPS.update({
                    {"modules": ["specs.socket_model", "specs.seqdict", "specs.opaque", "specs.daemon_model", "contracts.threadpool"],
                     "contracts": ["Pyro5.svr_threads.Worker.run", "Pyro5.svr_threads.Pool.notify_done", "Pyro5.svr_threads.Pool.process"]}],
         "harness": ["replay/dispatch.py", "replay/c18.py"],
-        "explanation": "exception containment proved against the weakest callee contracts (handleRequest / _handshake / _clientDisconnect may raise ANY Exception): "
+        "explanation": "Daemon.handleRequest (body): after a normal return the connection is still open - the transport servers learn that a connection is finished only "
+                       "from an exception - and a non-oneway request was answered exactly once.  Exception containment proved against the weakest callee contracts (handleRequest / _handshake / _clientDisconnect may raise ANY Exception): "
                        "nothing escapes the per-connection job of the thread server (so the worker always returns to the pool), the refusal path, the multiplex "
                        "per-connection handler and accept path (except ConnectionClosedError when the listening socket itself is gone); recv_stub raises only its declared "
                        "classes on arbitrary bytes; an error reply is produced for any exception that can be reported.  Second contract group (shared with C06): the message "
@@ -195,10 +196,13 @@ PROPS.update({
         "groups": [{"modules": ["specs.socket_model", "specs.pystruct", "specs.seqdict", "specs.opaque", "specs.daemon_model", "contracts.registry"],
                     "contracts": ["Pyro5.server.Daemon.register", "Pyro5.server.Daemon.unregister", "Pyro5.server.Daemon.uriFor#body",
                                   "Pyro5.server._pyro_obj_to_auto_proxy", "Pyro5.server.Daemon._unregister_collected", "Pyro5.server.DaemonObject.get_metadata"],
-                    "lemmas": ["C16:registry-frame"]}],
+                    "lemmas": ["C16:registry-frame"]},
+                   {"modules": ["specs.socket_model", "specs.pystruct", "specs.seqdict", "specs.opaque", "contracts.type_replacement"],
+                    "contracts": ["Pyro5.serializers.JsonSerializer.register_type_replacement", "Pyro5.serializers.MsgpackSerializer.register_type_replacement",
+                                  "Pyro5.serializers.JsonSerializer.default#replacement", "Pyro5.serializers.MsgpackSerializer.default#replacement"]}],
         "harness": "replay/dispatch.py",
         "explanation": "dispatch part: the object a request reaches is the registry entry of the request's object id (weak reference unpacked, class instantiated via "
-                       "_getInstance); 'unknown object' is answered only when that entry is None; every invoked member was resolved on that object.  Registry operations (own contract group, stated for one arbitrary id = every id): register puts exactly the new id -> this object (a weak reference to it when weak) into the table, leaves every other id alone, sets _pyroId/_pyroDaemon on the object, takes over an id already in use or re-registers a currently registered object only when forced, never registers a class weakly, refuses (DaemonError / TypeError) without touching the table; unregister (by id or by object) removes exactly that id, never the daemon's own, strips the object's id attributes; uriFor hands out a uri for an object only while its id is registered; the auto-proxy hook replaces an object by one proxy made by its daemon exactly when its id currently designates it (or its class) in the registry and otherwise lets it travel by value; the collection callback of a weak registration (_unregister_collected, bound to the id and to the very weak reference stored) forgets the id exactly while it still holds that reference; DaemonObject.get_metadata answers only for an id with a live entry, from the registry as it is now.  Lemma registry-frame (syntactic): objectsById is rebound / mutated / passed on only by these functions and the constructor.",
+                       "_getInstance); 'unknown object' is answered only when that entry is None; every invoked member was resolved on that object.  Registry operations (own contract group, stated for one arbitrary id = every id): register puts exactly the new id -> this object (a weak reference to it when weak) into the table, leaves every other id alone, sets _pyroId/_pyroDaemon on the object, takes over an id already in use or re-registers a currently registered object only when forced, never registers a class weakly, refuses (DaemonError / TypeError) without touching the table; unregister (by id or by object) removes exactly that id, never the daemon's own, strips the object's id attributes; uriFor hands out a uri for an object only while its id is registered; the auto-proxy hook replaces an object by one proxy made by its daemon exactly when its id currently designates it (or its class) in the registry and otherwise lets it travel by value; the collection callback of a weak registration (_unregister_collected, bound to the id and to the very weak reference stored) forgets the id exactly while it still holds that reference; DaemonObject.get_metadata answers only for an id with a live entry, from the registry as it is now.  Type replacement tables of the json / msgpack serializers (third group; what turns a registered object into a proxy on its way out): register_type_replacement writes exactly the entry of the given class (refusing non-classes and `type`), default() looks the exact type of the object up in the table as it is at that moment, calls the function found there exactly once on that very object and converts what it returned; nothing is called when no entry exists.  Lemma registry-frame (syntactic): objectsById is rebound / mutated / passed on only by these functions and the constructor.",
         "assumptions": _COMMON_ASSUME + ["registry contracts: the registered object is a plain Python object (setting / deleting its Pyro attributes runs no user code), sequential "
                                          "semantics, proxyFor and the type-replacement registration with the serializers as declared; whole histories (falsy, weak, re-used "
                                          "ids, garbage collection) only in the bounded native harness", "GC timing of weak references"],
